@@ -779,6 +779,38 @@ func (s *Store) Eval(t *Term, m map[*Term]uint64, memo map[*Term]uint64) (uint64
 		return 0, false
 	}
 	var r uint64
+	// comparisons of real-sorted terms: evaluated exactly over the rationals (model values of real variables are
+	// float64 bit patterns; any point at which the two sides differ is a witness)
+	if len(t.Args) == 2 && t.Args[0].W == RealW && (t.Op == OpEq || t.Op == OpRLt || t.Op == OpRLe) {
+		x, ok1 := s.EvalReal(t.Args[0], m, memo)
+		y, ok2 := s.EvalReal(t.Args[1], m, memo)
+		if !ok1 || !ok2 {
+			return 0, false
+		}
+		c := x.Cmp(y)
+		switch t.Op {
+		case OpEq:
+			r = 0
+			if c == 0 {
+				r = 1
+			}
+		case OpRLt:
+			r = 0
+			if c < 0 {
+				r = 1
+			}
+		default:
+			r = 0
+			if c <= 0 {
+				r = 1
+			}
+		}
+		memo[t] = r
+		return r, true
+	}
+	if t.W == RealW {
+		return 0, false
+	}
 	switch t.Op {
 	case OpConst:
 		r = t.Val
